@@ -39,15 +39,15 @@ def old_group(rng, i, name):
     return g
 
 
-def reinit_script(rng, i, variant):
-    g = old_group(rng, i, f"c17-r{i}-{variant}")
+def reinit_script(rng, i, variant, new_suite=None):
+    g = old_group(rng, i, f"c17-r{i}-{variant}" + (f"-suite{new_suite}" if new_suite else ""))
     ops = g.ops
     members = list(g.in_group)
     c = rng.choice(members)
     others = [m for m in members if m != c]
     gid = "ab%04x" % i
     ops.append({"op": "opts", "who": c, "encrypt_controls": False})
-    ops.append({"op": "commit", "who": c, "id": "cr", "reinit": True, "new_gid": gid})
+    ops.append(dict({"op": "commit", "who": c, "id": "cr", "reinit": True, "new_gid": gid}, **({"new_suite": new_suite} if new_suite else {})))
     for m in others:
         ops.append({"op": "deliver", "to": m, "msg": "cr"})
     ops.append({"op": "apply", "who": c})
@@ -88,6 +88,8 @@ def reinit_script(rng, i, variant):
     for m in included:
         kp = f"rk_{m}"
         o = {"op": "reinit_kp", "who": m, "id": kp}
+        if new_suite:
+            o["new_suite"] = new_suite
         if variant == "replaced" and m == included[0]:
             o["as"] = outsider
             new_names = [c] + [outsider if x == m else x for x in included]
@@ -98,6 +100,8 @@ def reinit_script(rng, i, variant):
         kps.append("k_out")
         new_names = new_names + [outsider]
     rco = {"op": "reinit_commit", "who": c, "id": "rc", "kps": kps}
+    if new_suite:
+        rco["new_suite"] = new_suite
     if variant == "replaced_creator":
         # the party that creates the successor takes its own leaf under an identity that is not in the old group
         rco["as"] = outsider
@@ -108,6 +112,8 @@ def reinit_script(rng, i, variant):
     meta["joins"] = []
     for m in included:
         o = {"op": "reinit_join", "who": m, "welcome_any": "rc", "tree": "rc.tree"}
+        if new_suite:
+            o["new_suite"] = new_suite
         if variant == "replaced" and m == included[0]:
             o["as"] = outsider
         ops.append(o)
@@ -218,6 +224,10 @@ def main(run, args):
     for i in range(n):
         for v in VARIANTS:
             items.append(("reinit",) + reinit_script(rng, i * 10 + VARIANTS.index(v), v))
+        # the successor may use ANOTHER cipher suite (other curve, other hash size): every member comes back
+        # under the same identity with a signature key of the new suite
+        for v in (("equal", "subset") if i % 2 == 0 else ("equal",)):
+            items.append(("reinit",) + reinit_script(rng, i * 10 + 7 + VARIANTS.index(v), v, new_suite=[7, 5, 2, 3][i % 4]))
         for v in ("equal", "subset", "superset"):
             items.append(("branch",) + branch_script(rng, i * 10 + 5 + ("equal", "subset", "superset").index(v), v))
     forged = [forged_successor_script(rng, i) for i in range(2 if quick else 8)]
